@@ -73,7 +73,7 @@ var Inl = []string{
 	"</b>", "<b>", "[t](/u\\", "&#x2d;", "![\"x](y)", "[r][a\nb]", "\\é", "##", " #",
 	"[![[x](/y)](/z)](/w)", "[![", "![[", "](/z)", "[a ![b [c](/d) e](/f) g](/h)", "![a [b](/c)](/d)", "[![i](/s)](/u)", "[[x](/y)](/z)", "[r]: /u", "![foo][]", "![r]", "![r][r]",
 	"<DIV>", "<XMP>", "<B>", "</DIV>", "<Script>",
-	"[foo\\a]: /u", "[x][foo\\a]", "[ref\\1]", "[foo\\a]", "``` a&#32;b c\n", "~~~ x&Tab;y z\n", "``` a&nbsp;b\n", "- > q\n  ***\n  p", "- > q\n  # h\n  p\n- r", "> a\n>\n>\t  code", ">\t\tcode1\n>\t\tcode2", "> - a\n>\n>\tb",
+	"\ufeff", "\ufeff# h", "a\\\rb", "x\\\r\ny\\\rz", "[foo\\a]: /u", "[x][foo\\a]", "[ref\\1]", "[foo\\a]", "``` a&#32;b c\n", "~~~ x&Tab;y z\n", "``` a&nbsp;b\n", "- > q\n  ***\n  p", "- > q\n  # h\n  p\n- r", "> a\n>\n>\t  code", ">\t\tcode1\n>\t\tcode2", "> - a\n>\n>\tb",
 	"[\x00a\x00]: /u", "[\x00a\x00]", "\x00a\x00", "[a\x00\x00b\x00]", "`\x00 \x00`", "<a\x00b\x00>", "(/u\x00v\x00 \"t\x00\x00u\x00\")",
 }
 
